@@ -495,6 +495,41 @@ def make_scenario(tree, static=False, options=None):
     return t, accounts, scn
 
 
+def _values(s, out):
+    """value expressions of the calls / creates of a tree"""
+    k = s[0]
+    if k == "end":
+        return out
+    if k == "call":
+        if s[1] in ("CALL", "CALLCODE"):
+            out.append(s[3])
+        _values(s[5], out)
+        return _values(s[6], out)
+    if k == "create":
+        out.append(s[1])
+        _values(s[2], out)
+        return _values(s[3], out)
+    return _values(s[-1], out)
+
+
+def boundary_inputs(tree, inputs, rng, limit=4):
+    """balance boundaries: an account that pays holds exactly the value, one less, one more"""
+    vals = _values(tree, [])
+    out = []
+    for base in inputs[:3]:
+        for e in vals[:3]:
+            v = e[1] if e[0] == "c" else base["args"].get(f"arg{e[1]}", 0)
+            if not 0 < v <= (1 << 120):
+                continue
+            for payer in (THIS, rng.choice(POOL)):
+                for b in (v, v - 1, v + 1):
+                    i = copy.deepcopy(base)
+                    i.setdefault("balances", {})[payer] = b
+                    out.append(i)
+    rng.shuffle(out)
+    return out[:limit]
+
+
 def check_tree(task):
     """task = (seed, tree, static, n_random) -> summary dict (picklable)"""
     seed, tree, static, n_random = task
@@ -502,6 +537,7 @@ def check_tree(task):
     t, accounts, scn = make_scenario(tree, static)
     paths, flags = engine.run_scenario(scn)
     inputs = l2tie.derive_inputs(scn, paths, rng, n_random)
+    inputs += boundary_inputs(tree, inputs, rng)
     # documented modelling assumption: balances stay <= MAX_ETH = 2^128 (halmos constrains every
     # balance it reads); keep every initial balance <= 2^120 so that no sum in the tree exceeds it
     inputs = [i for i in inputs if not any(b > (1 << 120) for b in i.get("balances", {}).values())]
